@@ -351,6 +351,14 @@ class Engine:
                 return F
         if k == 'un' and e[1] == 'not':
             return f_not(self._b(e[2], True))
+        # bit i of a local combinational wire that has one unconditional whole-signal driver: bit i of what drives it
+        if k == 'sub' and e[1][0] == 'sig' and e[2][0] != 'slice' and self.is_comb_wire(e[1]):
+            ds_ = self._by_target.get(e[1], [])
+            sg_ = self.w.t.sigs[e[1][1]]
+            if len(ds_) == 1 and not ds_[0].dsl and list(ds_[0].gen) == list(sg_.gen):
+                v_ = self.norm(('sub', self.norm(ds_[0].value), e[2]))
+                if not (v_[0] == 'sub' and v_[1] == self.norm(ds_[0].value)):       # it reduced to something about the operands
+                    return self._b(v_, guard)
         # bool(x) is the truth value of x; for a Python object with a length (a name part, a list of fields ...) so is `len(x) > 0`
         if k == 'call' and e[1] == ('name', 'bool') and len(e[2]) == 1 and not e[3] and not self.may_be_signal(e[2][0]):
             return self._b(e[2][0], True)
